@@ -211,7 +211,7 @@ impl Resolver {
 
     fn expr(&mut self, e: &Expr) {
         match e {
-            Expr::Nil | Expr::True | Expr::False | Expr::Num(_) | Expr::Str(_) => {}
+            Expr::Nil | Expr::True | Expr::False | Expr::Num(_) | Expr::RawNum(..) | Expr::Str(_) | Expr::RawStr(..) => {}
             Expr::Interp(parts) => {
                 for p in parts {
                     if let Part::Expr(e) = p {
